@@ -4,6 +4,21 @@ From Coq Require Import List Bool Arith Lia Permutation Sorted.
 From Atlas Require Import Plan.SortModel Plan.SortDfs Plan.SortReplay Plan.SortProofs.
 Import ListNotations.
 
+(** * tables: name n, current object id 2n, desired object id 2n+1 *)
+Definition cur (n : nat) : table := mkT n 0 (2 * n).
+Definition des (n : nat) : table := mkT n 0 (2 * n + 1).
+(* catalogues are written with table names; the catalogue itself keys tables by [qn] (schema 0 here) *)
+Definition ktabs (tabs : list nat) : list nat := map (qcode 0) tabs.
+Definition kfks (fks : list (nat * nat * nat)) : list (nat * nat * nat) :=
+  map (fun e => (qcode 0 (fst (fst e)), snd (fst e), qcode 0 (snd e))) fks.
+Definition kcat (tabs : list nat) (fks : list (nat * nat * nat)) : cat := mkCat (ktabs tabs) (kfks fks).
+
+(* tables of two schemas: [tq s n i] = table n of schema s, object i *)
+Definition tq (s n i : nat) : table := mkT n s i.
+Definition qcat (tabs : list (nat * nat)) (fks : list ((nat * nat) * nat * (nat * nat))) : cat :=
+  mkCat (map (fun t => qcode (fst t) (snd t)) tabs)
+        (map (fun e => (qcode (fst (fst (fst e))) (snd (fst (fst e))), snd (fst e), qcode (fst (snd e)) (snd (snd e)))) fks).
+
 Ltac explode :=
   repeat match goal with
   | H : False |- _ => destruct H
@@ -14,6 +29,9 @@ Ltac explode :=
   | H : _ = ?x |- _ => is_var x; subst x
   | H : In _ _ |- _ => simpl in H
   end.
+
+(* [qn] of a concrete table is a numeral *)
+Ltac norm := cbv [qn qcode cur des tq t_name t_schema Nat.add Nat.mul] in *.
 
 Ltac wf_tac :=
   constructor; simpl;
@@ -33,12 +51,8 @@ Ltac cons_tac :=
     repeat match goal with H : ModifyTable _ _ = ModifyTable _ _ |- _ => inversion H; clear H; subst end;
     simpl; auto 10
   | intros x f Hx Hf; explode; simpl in *; explode; simpl; auto 10
-  | intros e He Hd Hn; explode; simpl in *; explode; try congruence
+  | intros e He Hd Hn; explode; simpl in *; explode; try congruence; try (exfalso; norm; congruence)
   | intros x Hx; explode; simpl; try exact I; intros y Hy; explode; simpl; eauto 10 ].
-
-(** * tables: name n, current object id 2n, desired object id 2n+1 *)
-Definition cur (n : nat) : table := mkT n (2 * n).
-Definition des (n : nat) : table := mkT n (2 * n + 1).
 
 (** * The former counterexample (finding C04-modfk-detached, repaired in dependsOn): re-point a foreign key
       of kept table 0 to created table 1, which references 0.  The cycle 0 <-> 1 makes DetachCycles detach;
@@ -46,7 +60,7 @@ Definition des (n : nat) : table := mkT n (2 * n + 1).
 Definition cx_cs : list change :=
   [ ModifyTable (des 0) [ModifyFK (mkFK 5 (cur 0) (cur 2)) (mkFK 5 (des 0) (des 1))];
     AddTable (des 1) [mkFK 21 (des 1) (des 0)] ].
-Definition cx_cat : cat := mkCat [0; 2] [(0, 5, 2)].
+Definition cx_cat : cat := kcat [0; 2] [(0, 5, 2)].
 Definition cx_plan : list change :=
   [ AddTable (des 1) [];
     ModifyTable (des 0) [ModifyFK (mkFK 5 (cur 0) (cur 2)) (mkFK 5 (des 0) (des 1))];
@@ -63,7 +77,7 @@ Lemma cx_runs : sortMap cx_cs = SMCycle /\ DetachCycles cx_cs = DCOk
       AddTable (des 1) [];
       ModifyTable (des 1) [AddFK (mkFK 21 (des 1) (des 0))] ] /\
   plan cx_cs = POk cx_plan /\
-  replay cx_plan cx_cat = Some (mkCat [1; 0; 2] [(0, 5, 1); (1, 21, 0)]).
+  replay cx_plan cx_cat = Some (kcat [1; 0; 2] [(0, 5, 1); (1, 21, 0)]).
 Proof. repeat split; vm_compute; reflexivity. Qed.
 
 (** * Three new tables referencing each other in a 3-cycle *)
@@ -71,7 +85,7 @@ Definition c3_cs : list change :=
   [ AddTable (des 0) [mkFK 21 (des 0) (des 1)];
     AddTable (des 1) [mkFK 22 (des 1) (des 2)];
     AddTable (des 2) [mkFK 20 (des 2) (des 0)] ].
-Definition c3_cat : cat := mkCat [] [].
+Definition c3_cat : cat := kcat [] [].
 Definition c3_plan : list change :=
   [ AddTable (des 0) []; AddTable (des 1) []; AddTable (des 2) [];
     ModifyTable (des 0) [AddFK (mkFK 21 (des 0) (des 1))];
@@ -83,7 +97,7 @@ Proof. wf_tac. Qed.
 Lemma c3_cons : consistent c3_cat c3_cs.
 Proof. cons_tac. Qed.
 Lemma c3_runs : sortMap c3_cs = SMCycle /\ plan c3_cs = POk c3_plan /\
-  replay c3_plan c3_cat = Some (mkCat [2; 1; 0] [(0, 21, 1); (1, 22, 2); (2, 20, 0)]).
+  replay c3_plan c3_cat = Some (kcat [2; 1; 0] [(0, 21, 1); (1, 22, 2); (2, 20, 0)]).
 Proof. repeat split; vm_compute; reflexivity. Qed.
 
 (** * A new self-referencing table; two dropped tables referencing each other, one also itself *)
@@ -91,7 +105,7 @@ Definition sr_cs : list change :=
   [ AddTable (des 0) [mkFK 20 (des 0) (des 0)];
     DropTable (cur 1) [mkFK 1 (cur 1) (cur 1); mkFK 2 (cur 1) (cur 2)];
     DropTable (cur 2) [mkFK 1 (cur 2) (cur 1)] ].
-Definition sr_cat : cat := mkCat [1; 2] [(1, 1, 1); (1, 2, 2); (2, 1, 1)].
+Definition sr_cat : cat := kcat [1; 2] [(1, 1, 1); (1, 2, 2); (2, 1, 1)].
 Definition sr_plan : list change :=
   [ AddTable (des 0) [mkFK 20 (des 0) (des 0)];
     ModifyTable (cur 1) [DropFK (mkFK 2 (cur 1) (cur 2))];
@@ -109,7 +123,7 @@ Proof.
     eexists; split; [right; left; reflexivity|split; reflexivity].
 Qed.
 Lemma sr_runs : sortMap sr_cs = SMCycle /\ plan sr_cs = POk sr_plan /\
-  replay sr_plan sr_cat = Some (mkCat [0] [(0, 20, 0)]).
+  replay sr_plan sr_cat = Some (kcat [0] [(0, 20, 0)]).
 Proof. repeat split; vm_compute; reflexivity. Qed.
 
 (** * No cycle: a re-pointed key to a created table, a chain of created tables, a drop *)
@@ -118,7 +132,7 @@ Definition ch_cs : list change :=
     AddTable (des 1) [mkFK 22 (des 1) (des 2)];
     AddTable (des 2) [];
     DropTable (cur 3) [] ].
-Definition ch_cat : cat := mkCat [0; 3] [(0, 5, 3)].
+Definition ch_cat : cat := kcat [0; 3] [(0, 5, 3)].
 Definition ch_plan : list change :=
   [ AddTable (des 2) [];
     AddTable (des 1) [mkFK 22 (des 1) (des 2)];
@@ -134,7 +148,7 @@ Proof.
   simpl. split; [auto|]. split; reflexivity.
 Qed.
 Lemma ch_runs : sortMap ch_cs = SMOk [2; 1; 0] /\ plan ch_cs = POk ch_plan /\
-  replay ch_plan ch_cat = Some (mkCat [1; 2; 0] [(1, 22, 2); (0, 5, 1)]).
+  replay ch_plan ch_cat = Some (kcat [1; 2; 0] [(1, 22, 2); (0, 5, 1)]).
 Proof. repeat split; vm_compute; reflexivity. Qed.
 
 (* another order sort.Slice may produce for the chain example (the drop, index 0, between the creations) *)
@@ -142,3 +156,35 @@ Lemma ch_tiebreak : detach_spec ch_cs [AddTable (des 2) []; DropTable (cur 3) []
     AddTable (des 1) [mkFK 22 (des 1) (des 2)];
     ModifyTable (des 0) [ModifyFK (mkFK 5 (cur 0) (cur 3)) (mkFK 5 (des 0) (des 1))]].
 Proof. apply DetachCycles_spec. vm_compute. reflexivity. Qed.
+
+(** * Two schemas with same-named tables: s1.t1 <-> s1.t2 are dropped (a 2-cycle of drops) while the
+      namesake s2.t1 is altered EARLIER in the list (new key to the created s2.t2).  By name alone the
+      altered table would be "dropped" (isDropped says so) and "t1", "t2" would be one node each. *)
+Definition tw_cs : list change :=
+  [ ModifyTable (tq 2 1 5) [AddFK (mkFK 23 (tq 2 1 5) (tq 2 2 7))];
+    AddTable (tq 2 2 7) [];
+    DropTable (tq 1 1 0) [mkFK 1 (tq 1 1 0) (tq 1 2 2)];
+    DropTable (tq 1 2 2) [mkFK 0 (tq 1 2 2) (tq 1 1 0)] ].
+Definition tw_cat : cat := qcat [(1, 1); (1, 2); (2, 1)] [((1, 1), 1, (1, 2)); ((1, 2), 0, (1, 1))].
+Definition tw_plan : list change :=
+  [ AddTable (tq 2 2 7) [];
+    ModifyTable (tq 1 1 0) [DropFK (mkFK 1 (tq 1 1 0) (tq 1 2 2))];
+    ModifyTable (tq 1 2 2) [DropFK (mkFK 0 (tq 1 2 2) (tq 1 1 0))];
+    ModifyTable (tq 2 1 5) [AddFK (mkFK 23 (tq 2 1 5) (tq 2 2 7))];
+    DropTable (tq 1 1 0) []; DropTable (tq 1 2 2) [] ].
+
+Lemma tw_wf : WF tw_cs.
+Proof. wf_tac. Qed.
+Lemma tw_cons : consistent tw_cat tw_cs.
+Proof.
+  cons_tac;
+  first
+  [ exists (DropTable (tq 1 1 0) [mkFK 1 (tq 1 1 0) (tq 1 2 2)]); simpl; split; [auto|]; split; [reflexivity|];
+    eexists; split; [left; reflexivity|split; reflexivity]
+  | exists (DropTable (tq 1 2 2) [mkFK 0 (tq 1 2 2) (tq 1 1 0)]); simpl; split; [auto|]; split; [reflexivity|];
+    eexists; split; [left; reflexivity|split; reflexivity] ].
+Qed.
+Lemma tw_runs : sortMap tw_cs = SMCycle /\ plan tw_cs = POk tw_plan /\
+  replay tw_plan tw_cat = Some (qcat [(2, 2); (2, 1)] [((2, 1), 23, (2, 2))]) /\
+  isDropped tw_cs (tq 2 1 5) = true /\ same_table (tq 2 1 5) (tq 1 1 0) = false.
+Proof. repeat split; vm_compute; reflexivity. Qed.
